@@ -1,7 +1,7 @@
 """T-C04a: mos-core/src/codegen/mod.rs `pub fn codegen` (the pass loop) -> Gen/PassLoopConds.v
 
 Translated: the exit/continue conditions of the loop, as boolean functions of an observation record
-(errors_empty, errors_eq_prev, undefined_empty, undefined_eq_prev, symbols_added, segments_empty), and MAX_ITERATIONS.
+(errors_empty, errors_eq_prev, undefined_empty, undefined_eq_prev, changed_empty, symbols_added, segments_empty), and MAX_ITERATIONS.
 Checked for shape (ShapeError = broken tie): the nesting and order of the conditions, what each branch does
 (return the errors / break / return the undefined items as diagnostics / take the undefined set), the loop tail
 (prev_errors = errors; errors = default; next_pass) and the not-converged exit."""
@@ -13,6 +13,7 @@ ATOMS = {
     "errors == prev_errors": "errors_eq_prev o",
     "ctx.undefined.is_empty()": "undefined_empty o",
     "ctx.undefined == prev_undefined": "undefined_eq_prev o",
+    "ctx.changed.is_empty()": "changed_empty o",
     "symbols_added": "symbols_added o",
     "ctx.segments.is_empty()": "segments_empty o",
 }
@@ -90,7 +91,7 @@ def translate():
     out.append("(* GENERATED by translate/t_passloop.py from mos-core/src/codegen/mod.rs (pub fn codegen) -- do not edit *)")
     out.append("From Coq Require Import Bool.")
     out.append("Record obs := mkObs { errors_empty : bool; errors_eq_prev : bool; undefined_empty : bool; undefined_eq_prev : bool;")
-    out.append("                      symbols_added : bool; segments_empty : bool }.")
+    out.append("                      changed_empty : bool; symbols_added : bool; segments_empty : bool }.")
     out.append("Definition cond_no_segments (o : obs) : bool := %s." % conds["segs"])
     out.append("Definition cond_bail (o : obs) : bool := %s." % conds["bail"])
     out.append("Definition cond_check_undefined (o : obs) : bool := %s." % conds["chk"])
